@@ -198,9 +198,18 @@ def run_stmt(st, S, I, R, indent):
         elif fl == 'walrus-stmt':
             R.emit(indent, ['use((', ('b', k), ' := new()))'], simple=True)
         elif fl == 'def':
-            R.emit(indent, ['def ', ('b', k), '(): pass'])
+            if R.layout == 'broken':
+                # the name on a continuation line of its own
+                R.emit(indent, ['def \\'])
+                R.emit(indent + 2, [('b', k), '(): pass'])
+            else:
+                R.emit(indent, ['def ', ('b', k), '(): pass'])
         elif fl == 'class':
-            R.emit(indent, ['class ', ('b', k), ': pass'])
+            if R.layout == 'broken':
+                R.emit(indent, ['class \\'])
+                R.emit(indent + 2, [('b', k), ': pass'])
+            else:
+                R.emit(indent, ['class ', ('b', k), ': pass'])
         else:
             raise ValueError(fl)
         return I.bind(S, k)
